@@ -107,6 +107,7 @@ func runC08(c *Ctx) {
 			continue
 		}
 		ruleReadFull(c, p, "C08.readfull")
+		ruleReaderSource(c, p, "C08.source")
 	}
 	p := c.Prog(core.CfgDefault)
 	if p == nil {
@@ -256,4 +257,39 @@ func runC08(c *Ctx) {
 	c.R.Assumptions = append(c.R.Assumptions,
 		"io.ReadFull / bufio / binary.ReadUvarint loop until the requested bytes arrived",
 		"decided: no partial read is interpreted, retry only between packets on unwrapped timeouts; not decided: identical results for all 2^(n-1) splits beyond these conditions")
+}
+
+// ruleReaderSource: the raw (undecompressed) stream of proto.Reader is touched only by the
+// constructor and the compression switch; every read goes through the selected data stream.
+func ruleReaderSource(c *Ctx, p *core.Program, rule string) {
+	c.R.Rule(rule, "who-may-access: proto.Reader.raw (the undecompressed transport stream) is accessed only by NewReader and EnableCompression/DisableCompression; every read method goes through Reader.Read, i.e. through the currently selected data stream - a read that bypasses the selection returns compressed frame bytes when compression is on (and only the code path that uses it is affected)")
+	cfg := p.Cfg.Name
+	n := 0
+	bad := false
+	for _, fn := range p.Funcs() {
+		for _, b := range fn.Blocks {
+			for _, in := range b.Instrs {
+				fa, ok := in.(*ssa.FieldAddr)
+				if !ok || !core.IsNamed(fa.X.Type(), core.PkgProto, "Reader") {
+					continue
+				}
+				f := fieldNameOnly(fa.X.Type(), fa.Field)
+				if f != "raw" && f != "decompressed" {
+					continue
+				}
+				n++
+				switch fn.Name() {
+				case "NewReader", "EnableCompression", "DisableCompression":
+				default:
+					bad = true
+					c.R.Bad(rule, core.FuncName(fn)+"/"+f, cfg, p.Pos(fa.Pos()), "Reader."+f+" is used directly by "+core.FuncName(fn)+": the read bypasses the data-stream selection")
+				}
+			}
+		}
+	}
+	if n < 3 {
+		c.R.Unk(rule, "proto.Reader.raw", cfg, "", "accesses to Reader.raw not found (anchor lost)")
+	} else if !bad {
+		c.R.Ok(rule, "proto.Reader.raw", cfg, "", sprintf("%d accesses, all in NewReader / Enable- / DisableCompression", n))
+	}
 }
